@@ -21,7 +21,8 @@ RULE = ("One case = (grid shape, centre cell, radius); for it all 2 neighbourhoo
         "ret_type / centre type -> TypeError. Non-trivial: ball clipped by a border, or radius >= 2, or non-cubic shape. "
         "Distinct = digest of (shape, centre, radius).")
 EXHAUSTIVE_DOMAIN = ("shapes {0..3}^3 (thorough {0..4}^3) as DiscreteWorld plus LineWorld(1..4)/GridWorld(1..4 x 1..4) x every "
-                     "centre cell x radius 0..max extent+2")
+                     "centre cell x radius 0..max extent+2; plus a diameter sweep on 4x4x4, 5x4x5, 4x5x6, 5x5x0 (thorough also 5x5x5, 6x6x6): corner / edge / middle "
+                     "centres x every radius from the largest extent - 1 to the Manhattan diameter")
 ASSUMPTIONS = ["non-wrapping grid worlds only (the property's scope)", "radius is a non-negative int",
                "the world's position table is the reference for cell ids (its consistency with the id formula is C09)"]
 
@@ -190,6 +191,11 @@ def strategy(tier):
             w, h, d = draw(ext(9)), draw(ext(7)), draw(ext(5))
         c = [draw(st.integers(0, max(w, 1) - 1)), draw(st.integers(0, max(h, 1) - 1)), draw(st.integers(0, max(d, 1) - 1))]
         r = draw(wone_of(st.integers(0, 3), st.integers(0, 12))) if max(w, h, d) < 60 else draw(st.sampled_from([3, 20, 33, 40, 80]))
+        if draw(st.integers(0, 3)) == 0:       # landmark radii: around the Chebyshev diameter, twice it, and the Manhattan diameter
+            m_, s_ = max(w, h, d, 1), max(w, 1) + max(h, 1) + max(d, 1)
+            r = max(0, draw(st.sampled_from([m_ - 2, m_ - 1, m_, 2 * m_ - 1, 2 * m_, 2 * m_ + 1, s_ - 4, s_ - 3, s_ - 2, s_])))
+            if draw(st.booleans()):             # ... seen from a corner
+                c = [draw(st.sampled_from([0, max(w, 1) - 1])), draw(st.sampled_from([0, max(h, 1) - 1])), draw(st.sampled_from([0, max(d, 1) - 1]))]
         frac = [draw(st.integers(0, 11)) for _ in range(3)]
         return {"kind": kind, "w": w, "h": h, "d": d, "c": c, "r": r, "frac": frac}
     return case()
@@ -204,6 +210,13 @@ def _cases(tier):
         for z, y, x in itertools.product(range(ed), range(eh), range(ew)):
             for r in range(0, max(w, h, d) + 3):
                 yield {"kind": kind, "w": w, "h": h, "d": d, "c": [x, y, z], "r": r, "frac": [(x + r) % 12, (y + 3) % 12, (z + 5) % 12]}
+    # diameter sweep: nearly cubic 3-D (and one 2-D) grids, centres in a corner / on an edge / in the middle, EVERY radius up to the
+    # Manhattan diameter (between the Chebyshev and the Manhattan diameter the two kinds of ball differ most)
+    for w, h, d in ((4, 4, 4), (5, 4, 5), (4, 5, 6), (5, 5, 0)) + (((5, 5, 5), (6, 6, 6)) if tier != "quick" else ()):
+        ew, eh, ed = max(w, 1), max(h, 1), max(d, 1)
+        for c in ((0, 0, 0), (ew - 1, eh - 1, ed - 1), (ew - 1, 0, ed // 2), (ew // 2, eh // 2, ed // 2)):
+            for r in range(max(w, h, d) - 1, w + h + d + 1):
+                yield {"kind": "discrete", "w": w, "h": h, "d": d, "c": list(c), "r": r, "frac": [r % 12, 3, 5]}
 
 
 def exhaustive(tier):
